@@ -1,5 +1,5 @@
 from .. import facts
-from ..rules import sampling, tables, geometry, traps, prefetch, alloc
+from ..rules import sampling, tables, geometry, traps, prefetch, alloc, filt
 
 
 def run(ck):
@@ -16,3 +16,4 @@ def run(ck):
     prefetch.r10_no_unconsumed_fetch(ck, P)
     prefetch.r11_tail_access_needs_remaining_count(ck, P)
     alloc.r9_failure_is_atomic(ck, P)      # C15-R9: a failed setter must not leave the filter kind ahead of its parameter block (the block is then read with the wrong layout)
+    filt.r1_layout(ck, P)                # C18-R1: the generator writes each table within the part of the block that was sized for it
